@@ -244,7 +244,8 @@ fn main() {
                 std::process::exit(0);
             }
             if what == "misc" {
-                match props3::misc() {
+                let res = std::panic::catch_unwind(props3::misc).unwrap_or_else(|_| Err("panic in one of the trusted leaves (default builders / operators / FCI wrappers)".to_string()));
+                match res {
                     Ok(n) => {
                         eprintln!("bounded misc: {} cases, all hold", n);
                         println!("{{\"cases\":{}}}", n);
